@@ -57,13 +57,8 @@ def run_unit(unit, snapshot, workdir, tier):
     for h in sel:
         cmd += ["--harness", h]
     timeout = int(unit.get("timeout", 900))
-    try:
-        p = subprocess.run(cmd, cwd=workdir, capture_output=True, text=True, timeout=timeout)
-        out = p.stdout + "\n" + p.stderr
-        rc = p.returncode
-    except subprocess.TimeoutExpired as e:
-        out = ((e.stdout or b"").decode("utf-8", "replace") if isinstance(e.stdout, bytes) else (e.stdout or "")) + "\n[timeout]"
-        rc = 124
+    rc, o1, o2 = kani_be.run_killable(cmd, workdir, None, timeout)
+    out = o1 + "\n" + o2
     open(path + ".log", "w").write(out)
     per = kani_be.split_output(out)
     res["_hs"] = sel
@@ -90,8 +85,7 @@ def run_unit(unit, snapshot, workdir, tier):
 def playback(path, h, workdir):
     cmd = ["kani", os.path.basename(path), "-Z", "function-contracts", "-Z", "stubbing", "-Z", "concrete-playback", "--concrete-playback=print",
            "--harness", h, "--output-format", "terse"]
-    try:
-        p = subprocess.run(cmd, cwd=workdir, capture_output=True, text=True, timeout=600)
-    except subprocess.TimeoutExpired:
+    rc, o1, o2 = kani_be.run_killable(cmd, workdir, None, 600)
+    if rc == 124:
         return None
-    return kani_be.parse_playback(p.stdout)
+    return kani_be.parse_playback(o1)
